@@ -12,7 +12,7 @@ Lemma noop_simple s o :
   is_err (step s o).2 = true → (step s o).1 = s.
 Proof.
   destruct o; intros Hx; try done; cbn [step];
-  unfold new_network, new_bus, new_node, new_message, new_enum, new_enum_value, net_add_bus, net_remove_bus,
+  unfold new_other, new_network, new_bus, new_node, new_message, new_enum, new_enum_value, net_add_bus, net_remove_bus,
     net_remove_all_buses, bus_update_name, bus_add_node_interface, bus_remove_node_interface,
     bus_remove_all_node_interfaces, node_update_name, node_update_id, node_add_interface,
     iface_add_sent, iface_remove_sent, iface_remove_all_sent, iface_add_received, iface_remove_received,
